@@ -12,12 +12,12 @@ def _persist_event(ev):
 
 
 def run(tier):
-    focus = [("ids", gwfocus.ids, ["2.0"], ["sync"], True),
-             ("tree", gwfocus.tree, ["1.4", "2.2"], ["sync"], True)]
-    chk = gwcheck.GwCheck(PID, tier, PROJ, focus=focus, flavours=["sync"], persist=True, exts=("json", "pickle"),
+    focus = [("ids", gwfocus.ids, ["2.0"], ["sync", "async"], True),
+             ("tree", gwfocus.tree, ["1.4", "2.2"], ["sync", "async"], True)]
+    chk = gwcheck.GwCheck(PID, tier, PROJ, focus=focus, flavours=["sync", "async"], persist=True, exts=("json", "pickle"),
                           mc_props=PROPS, mc_invs=INVS, mc_depth_quick=4, mc_depth_thorough=5, sim_depth=14,
                           gen_opts=lambda i: {"prefix": "mix", "tick_p": 0.10, "restart_p": 0.08},
-                          n_quick=160, nontrivial=_persist_event)
+                          n_quick=90, nontrivial=_persist_event)
     return chk.run()
 
 
